@@ -83,6 +83,16 @@ pub struct Scn {
     pub chg_after: usize,
     /// sender's device takes one frame per poll (back-pressure keeps fragments pending)
     pub one_per_poll: bool,
+    /// part "ingress": after `chg_after` rounds, while fragments of S's datagram are pending, S
+    /// RECEIVES a datagram whose automatic reply needs fragmentation itself:
+    /// 1 = echo request, 2 = UDP to a closed port; `stim_len` payload octets; sent by the peer R
+    /// or (captured frames of) a third node T
+    pub stim_kind: u8,
+    pub stim_third: bool,
+    pub stim_len: usize,
+    /// S's device refuses every frame for this many rounds after the stimulus was queued (full
+    /// back-pressure: nothing of S's datagram progresses while the stimulus arrives)
+    pub block_rounds: usize,
 }
 
 /// parameters of one UDP datagram
@@ -201,6 +211,10 @@ impl Scn {
             hw_to: None,
             chg_after: 0,
             one_per_poll: false,
+            stim_kind: 0,
+            stim_third: false,
+            stim_len: 0,
+            block_rounds: 0,
         }
     }
     /// parameters of the datagram described by the top-level fields (with payload length `len`)
@@ -230,7 +244,8 @@ impl Scn {
         json!({"part": self.part, "s_hw": self.s_hw.name(), "r_hw": self.r_hw.name(), "src": self.src.name(),
             "dst": self.dst.name(), "pan": self.pan, "mtu": self.mtu, "sport": self.sport, "dport": self.dport,
             "hl": self.hl, "lens": self.lens, "order": self.order, "first": self.first.as_ref().map(|f| f.to_json()), "fill": self.fill,
-            "hw_to": self.hw_to.map(|h| h.name()), "chg_after": self.chg_after, "one_per_poll": self.one_per_poll})
+            "hw_to": self.hw_to.map(|h| h.name()), "chg_after": self.chg_after, "one_per_poll": self.one_per_poll,
+            "stim_kind": self.stim_kind, "stim_third": self.stim_third, "stim_len": self.stim_len, "block_rounds": self.block_rounds})
     }
     pub fn from_json(v: &Value) -> Scn {
         let us = |k: &str| v[k].as_u64().unwrap_or(0);
@@ -253,6 +268,10 @@ impl Scn {
             hw_to: v["hw_to"].as_str().map(HwKind::from_name),
             chg_after: v["chg_after"].as_u64().unwrap_or(0) as usize,
             one_per_poll: v["one_per_poll"].as_bool().unwrap_or(false),
+            stim_kind: v["stim_kind"].as_u64().unwrap_or(0) as u8,
+            stim_third: v["stim_third"].as_bool().unwrap_or(false),
+            stim_len: v["stim_len"].as_u64().unwrap_or(0) as usize,
+            block_rounds: v["block_rounds"].as_u64().unwrap_or(0) as usize,
         }
     }
     pub fn proto(&self) -> Proto {
@@ -305,6 +324,7 @@ impl Scn {
                 g
             },
             fill: self.fill,
+            stimulus_sockets: self.part == "ingress",
             proto: self.proto(),
             tcp_buf: 4096,
         }
@@ -362,7 +382,7 @@ impl Scn {
 /// the failure to its baseline value and derives the final, minimal cause label with `label_of`.
 pub fn cause(scn: &Scn, _nfrag1: usize) -> String {
     format!(
-        "{}|first={},src={},dst={},hw={}-{},ports={:#06x}x{:#06x},hl={},pan={},mtu={},fill={},chg={:?}@{}/{}",
+        "{}|first={},src={},dst={},hw={}-{},ports={:#06x}x{:#06x},hl={},pan={},mtu={},fill={},chg={:?}@{}/{},stim={}/{}/{}/{}",
         scn.part,
         scn.first.as_ref().map(|f| format!("{}>{}:{:#06x}x{:#06x}:{}:{}", f.src.name(), f.dst.name(), f.sport, f.dport, f.hl, size_class(scn.s_hw, scn.r_hw, f))).unwrap_or_default(),
         scn.src.name(),
@@ -377,7 +397,11 @@ pub fn cause(scn: &Scn, _nfrag1: usize) -> String {
         scn.fill,
         scn.hw_to.map(|h| h.name()),
         scn.chg_after,
-        scn.one_per_poll
+        scn.one_per_poll,
+        scn.stim_kind,
+        scn.stim_third,
+        scn.stim_len,
+        scn.block_rounds
     )
 }
 
@@ -454,6 +478,15 @@ pub fn label_of(scn: &Scn, interrupted: bool) -> String {
         if scn.one_per_poll {
             p.push("device-takes-one-frame-per-poll".into());
         }
+    }
+    if scn.part == "ingress" && scn.stim_kind != 0 {
+        p.push(format!(
+            "{}-from-{}-received-while-fragments-pending",
+            if scn.stim_kind == 1 { "echo-request" } else { "udp-to-closed-port" },
+            if scn.stim_third { "third-node" } else { "peer" }
+        ));
+        // (how the fragments were kept pending -- one frame per poll, device blocked, or simply
+        // more fragments than one poll sends -- is a precondition, not the cause: not in the label)
     }
     if scn.part == "seq" {
         if let (Some(f), Some(&l)) = (&scn.first, scn.lens.first()) {
@@ -650,6 +683,10 @@ pub fn prepare(w: &mut World, scn: &Scn) -> bool {
         }
         for d in &uni {
             ok &= w.warm(true, s_ll, dst_addr(scn.r_hw, *d));
+        }
+        if scn.part == "ingress" && scn.s_hw == HwKind::Ext {
+            // the peer will send its stimulus to S's link-local address
+            ok &= w.warm(false, r_ll, s_ll);
         }
         if scn.proto() != Proto::Udp && scn.s_hw == HwKind::Ext {
             // replies flow R -> S: resolve that direction too (for every source S may use)
@@ -1175,6 +1212,126 @@ pub fn hwchg_exchange(w: &mut World, scn: &Scn) -> (Out, bool) {
         },
         pending,
     )
+}
+
+pub const CLOSED_PORT: u16 = 7777;
+
+/// queue the stimulus on the node in the `r` position, addressed to S's link-local address
+pub fn stimulus_send(w: &mut World, scn: &Scn, from_node: usize) -> bool {
+    let s_ll = unicast_addr(0, scn.s_hw, AddrClass::LlHw);
+    let r_ll = unicast_addr(from_node, scn.r_hw, AddrClass::LlHw);
+    if scn.stim_kind == 1 {
+        let h = w.r.icmp.unwrap();
+        let s = w.r.sockets.get_mut::<icmp::Socket>(h);
+        s.send_slice(&echo_request(scn.stim_len, 9), IpAddress::Ipv6(s_ll)).is_ok()
+    } else {
+        let h = w.r.warm;
+        let s = w.r.sockets.get_mut::<smoltcp::socket::udp::Socket>(h);
+        let mut meta = smoltcp::socket::udp::UdpMetadata::from(IpEndpoint::new(IpAddress::Ipv6(s_ll), CLOSED_PORT));
+        meta.local_address = Some(IpAddress::Ipv6(r_ll));
+        s.send_slice(&pattern(scn.stim_len, 7), meta).is_ok()
+    }
+}
+
+/// frames a third node T emits when it sends the stimulus to S (its neighbor solicitation
+/// included: that is how S learns where to send the reply), captured in a world of their own
+pub fn capture_third(scn: &Scn) -> Vec<Vec<u8>> {
+    let mut w = World::with_peer(&scn.world_cfg(Med::Lowpan), 2);
+    stimulus_send(&mut w, scn, 2);
+    for attempt in 0..3 {
+        if w.settle(120 + scn.stim_len / 20) && w.r2s.len() >= 2 {
+            break;
+        }
+        if attempt < 2 {
+            w.now += 1_050_000;
+        }
+    }
+    std::mem::take(&mut w.r2s)
+}
+
+/// "ingress" part, 6LoWPAN world: S starts a fragmented datagram; while fragments are pending it
+/// receives the stimulus; then everything is polled to quiescence.
+pub fn ingress_exchange(w: &mut World, scn: &Scn, third: &[Vec<u8>]) -> (Out, bool) {
+    w.clear_logs();
+    w.too_long.clear();
+    let d = scn.main_dg(scn.lens[0]);
+    let accepted = vec![w.udp_send(scn.dg_src(&d), scn.dg_dst(&d), d.dport, &pattern(d.len, 0))];
+    if scn.one_per_poll {
+        w.s.per_poll = Some(1);
+    }
+    for _ in 0..scn.chg_after {
+        w.round();
+    }
+    let pending = w.s.poll_at(w.now).is_some_and(|t| t <= w.now) && !w.s2r.is_empty();
+    if scn.stim_kind != 0 {
+        if scn.stim_third {
+            for f in third {
+                w.s.dev.rx.push_back(f.clone());
+            }
+        } else {
+            stimulus_send(w, scn, 1);
+        }
+    }
+    if scn.block_rounds > 0 {
+        w.s.per_poll = Some(0);
+        for _ in 0..scn.block_rounds {
+            w.round();
+        }
+        w.s.per_poll = if scn.one_per_poll { Some(1) } else { None };
+        w.s.dev.budget = None;
+    }
+    let quiescent = w.settle(200 + (d.len + scn.stim_len) / 10);
+    w.s.per_poll = None;
+    w.s.dev.budget = None;
+    let h = w.r.udp;
+    // only S's own datagram is judged: frames of tag(s) S opened for it; everything S sent is kept
+    (
+        Out {
+            accepted,
+            udp: World::udp_drain(&mut w.r, h),
+            raw: std::mem::take(&mut w.raw_r),
+            frames: std::mem::take(&mut w.s2r),
+            back_frames: std::mem::take(&mut w.r2s),
+            quiescent,
+            too_long: std::mem::take(&mut w.too_long),
+        },
+        pending,
+    )
+}
+
+pub fn run_ingress(scn: &Scn, acc: &mut Acc) {
+    acc.scenarios += 1;
+    *acc.per_part.entry(scn.part.clone()).or_insert(0) += 1;
+    let r = catch_unwind(AssertUnwindSafe(|| {
+        let third = if scn.stim_third && scn.stim_kind != 0 { capture_third(scn) } else { vec![] };
+        let (mut wl, mut wi) = world_pair(scn, acc);
+        let (lo, pending) = ingress_exchange(&mut wl, scn, &third);
+        // reference: the same datagram without the disturbance
+        let io = udp_exchange(&mut wi, scn);
+        acc.polls += wl.polls + wi.polls;
+        (lo, io, pending, third.len())
+    }));
+    match r {
+        Ok((lo, io, pending, nthird)) => {
+            if scn.stim_third && scn.stim_kind != 0 && nthird < 2 {
+                acc.machinery.push(format!("third node's stimulus could not be captured: {}", scn.to_json()));
+            }
+            let v = eval_udp(scn, &lo, Some(&io), None, acc);
+            acc.frames += (lo.frames.len() + lo.back_frames.len()) as u64;
+            acc.outcome(format!(
+                "ingress {} from {} fragments-pending-at-arrival={} {}",
+                match scn.stim_kind {
+                    1 => "echo-request",
+                    2 => "udp-to-closed-port",
+                    _ => "nothing",
+                },
+                if scn.stim_third { "third-node" } else { "peer" },
+                pending,
+                if v.all_delivered { "delivered" } else { "not-delivered" }
+            ));
+        }
+        Err(e) => panic_viol(scn, e, acc, "6LoWPAN world (ingress while fragments pending)"),
+    }
 }
 
 pub fn run_hwchg(scn: &Scn, acc: &mut Acc) {
